@@ -2180,16 +2180,17 @@ impl Gen {
         self.emit(sx, &format!("fault2:{}:{}:{}", a, b, FAULTS[j].1), vec![], true);
     }
 
-    /// an index or a length that is a number but not an exact integer (the reference model has
+    /// an index or a length that is an INEXACT number (the reference model has
     /// no such numbers: the expected error kind travels in the form's kind)
     fn inexact_index_fault(&mut self) {
         let vn = self.ensure_vec();
-        let text = match self.rng.upto(5) {
+        // (inexact numbers only: a ratio such as 4/2 IS the exact integer 2, whatever an
+        // implementation makes of it while reading)
+        let text = match self.rng.upto(4) {
             0 => format!("(vector-ref {} 1.0)", vn),
             1 => format!("(vector-set! {} 0.0 5)", vn),
             2 => "(make-vector 2.0 0)".to_string(),
-            3 => format!("(vector-ref {} 4/2)", vn),
-            _ => format!("(vector-set! {} 2/2 7)", vn),
+            _ => format!("(vector-ref {} 1.5)", vn),
         };
         self.forms.push(FormRec { text, kind: "faultx:Type".to_string(), roots: vec![], write: false });
     }
